@@ -342,6 +342,25 @@ func attacks(f uint32, L uint32, dotu bool) []attack {
 	add("Tstat", &wire.Msg{Type: wire.Tstat, Fid: f})
 	st := wire.Stat{Type: 1, Dev: 2, Mode: 0, Atime: 0, Mtime: 0, Length: 0, Name: "zero", Uid: "nobody-such-user", Gid: "nogroup-such", Muid: "x", Nuid: 0, Ngid: 0, Nmuid: 0}
 	add("Twstat/zeros", &wire.Msg{Type: wire.Twstat, Fid: f, Stat: st})
+	// owner and group changes: by name (resolved by the server in the plain dialect), by number (.u), known and unknown
+	owners := []string{"", "root", "nobody", "no-such-user-c06", "0", strings.Repeat("u", 300)}
+	for i, u := range owners {
+		for j, g := range owners {
+			if i > 2 && j > 2 && i != j {
+				continue
+			}
+			so := dontTouch("")
+			so.Uid, so.Gid = u, g
+			add(fmt.Sprintf("Twstat/owner/%d/%d", i, j), &wire.Msg{Type: wire.Twstat, Fid: f, Stat: so})
+		}
+	}
+	for i, n := range []uint32{0, 65534, 0x7FFFFFFF, 0xFFFFFFFE} {
+		so := dontTouch("")
+		so.Nuid, so.Ngid = n, wire.NOUID
+		add(fmt.Sprintf("Twstat/nuid/%d", i), &wire.Msg{Type: wire.Twstat, Fid: f, Stat: so})
+		so.Nuid, so.Ngid = wire.NOUID, n
+		add(fmt.Sprintf("Twstat/ngid/%d", i), &wire.Msg{Type: wire.Twstat, Fid: f, Stat: so})
+	}
 	st2 := dontTouch("")
 	st2.Length = 1 << 62
 	add("Twstat/hugelen", &wire.Msg{Type: wire.Twstat, Fid: f, Stat: st2})
